@@ -119,12 +119,33 @@ def dense_digest(op):
         return "raises:" + type(e).__name__
 
 
+def walk_ops(obj, out=None, path="", seen=None, depth=0):
+    """Operators nested inside an operator (parts of composites, wrapped operands), by attribute path."""
+    if out is None:
+        out = []
+    if depth > 12:
+        return out
+    if is_op(obj):
+        if path:
+            out.append((path, obj))
+        for k, v in sorted(vars(obj).items()):
+            if k in BASE_FIELDS:
+                continue
+            walk_ops(v, out, f"{path}.{k}", seen, depth + 1)
+    elif isinstance(obj, (tuple, list)):
+        for i, v in enumerate(obj):
+            walk_ops(v, out, f"{path}[{i}]", seen, depth + 1)
+    return out
+
+
 def op_fingerprint(op, dense=True):
     fp = {
         "cls": type(op).__name__,
         "shape": [int(s) for s in op.shape],
         "dtype": str(np.dtype(op.dtype)) if _is_np_dtype(op.dtype) else str(op.dtype),
         "ann": ann_names(op),
+        # the parts of a composite are operators too (the caller may hold them): kind, shape, dtype and annotations of each
+        "parts": [[p, type(o).__name__, [int(x) for x in o.shape], str(o.dtype), ann_names(o)] for p, o in walk_ops(op)][:64],
     }
     if dense:
         fp["dense"] = dense_digest(op)
